@@ -10,7 +10,17 @@ use pushr::push::item::Item;
 use pushr::push::state::PushState;
 use std::sync::{Arc, Barrier};
 
+/// wall-clock time of the slowest `run_once` since the last reset (ms): a timed case whose run really took
+/// that long is inconclusive
+static SLOWEST_MS: std::sync::atomic::AtomicU64 = std::sync::atomic::AtomicU64::new(0);
+
 fn run_once(pre: &str) -> String {
+    let t0 = std::time::Instant::now();
+    let r = run_once_inner(pre);
+    SLOWEST_MS.fetch_max(t0.elapsed().as_millis() as u64, std::sync::atomic::Ordering::SeqCst);
+    r
+}
+fn run_once_inner(pre: &str) -> String {
     let r = std::panic::catch_unwind(|| {
         let mut st = dec_state(&parse_line(pre).unwrap()[0]).unwrap();
         let mut iset = make_iset(false);
@@ -39,6 +49,18 @@ pub fn run(seed: u64, tier: &str, out: &mut dyn FnMut(String)) {
         }
         st.configuration.eval_push_limit = *r.pick(&[50, 200, 1000]);
         st.configuration.eval_time_limit = 600_000;
+        // timed cases: several ms of work under a 2 s limit (read in milliseconds): a run cut short by the clock
+        // ends in a scheduling-dependent state
+        let timed = case % 25 == 24;
+        if timed {
+            st.exec_stack.flush();
+            st.exec_stack.push(Item::list(vec![Item::instruction("INTEGER.+".to_string()), Item::instruction("INTEGER.DUP".to_string())]));
+            st.exec_stack.push(Item::instruction("EXEC.Y".to_string()));
+            st.exec_stack.push(Item::int(1));
+            st.configuration.eval_push_limit = 4000;
+            st.configuration.eval_time_limit = 2000;
+        }
+        SLOWEST_MS.store(0, std::sync::atomic::Ordering::SeqCst);
         let pre = enc_state(&st);
         let nid = next_node_id();
         let mut posts = vec![run_once(&pre)];
@@ -70,6 +92,10 @@ pub fn run(seed: u64, tier: &str, out: &mut dyn FnMut(String)) {
         }
         for h in hs {
             posts.push(h.join().unwrap_or("PANIC".to_string()));
+        }
+        if timed && SLOWEST_MS.load(std::sync::atomic::Ordering::SeqCst) >= 1000 {
+            // the host really was that slow: nothing can be concluded from this case
+            continue;
         }
         out(format!("( detrun {} {} {} )", pre, enc_list(&posts), nid));
     }
